@@ -27,6 +27,7 @@ type c16case struct {
 	mux       string // "\x00" unset
 	versions  string // PLUGIN_PROTOCOL_VERSIONS; "" = the default "1,2", "\x00" = unset
 	slowInit  bool   // the plugin's registration hook takes 5.5 s (gRPC only)
+	dirName   string // name of the socket / temp directory the host hands to the plugin ("" = a plain name)
 }
 
 func (c c16case) String() string {
@@ -42,6 +43,9 @@ func (c c16case) String() string {
 	}
 	if c.slowInit {
 		s += " slow-init(5.5s)"
+	}
+	if c.dirName != "" {
+		s += fmt.Sprintf(" socket-dir-name=%q", c.dirName)
 	}
 	return s
 }
@@ -59,7 +63,7 @@ func TestC16(t *testing.T) {
 				for _, tl := range []string{"none", "provider", "clientcert"} {
 					for _, vd := range []bool{false, true} {
 						for _, mx := range []string{"\x00", "", "true", "false", "1", "junk"} {
-							cases = append(cases, c16case{ck, kv[0], kv[1], proto, tl, vd, mx, "", false})
+							cases = append(cases, c16case{ck, kv[0], kv[1], proto, tl, vd, mx, "", false, ""})
 						}
 					}
 				}
@@ -72,7 +76,7 @@ func TestC16(t *testing.T) {
 		for _, proto := range []string{"netrpc", "grpc"} {
 			for _, vd := range []bool{false, true} {
 				for _, mx := range []string{"\x00", "true"} {
-					cases = append(cases, c16case{cookieVal, cookieKey, cookieVal, proto, "none", vd, mx, vl, false})
+					cases = append(cases, c16case{cookieVal, cookieKey, cookieVal, proto, "none", vd, mx, vl, false, ""})
 				}
 			}
 		}
@@ -80,14 +84,22 @@ func TestC16(t *testing.T) {
 	// a TLSProvider that fails: without the right cookie the binary still refuses (status 1, nothing printed)
 	for _, ck := range []string{"\x00", "", cookieVal[:4], cookieVal + " ", strings.ToUpper(cookieVal), "other"} {
 		for _, proto := range []string{"netrpc", "grpc"} {
-			cases = append(cases, c16case{ck, cookieKey, cookieVal, proto, "provider-fail", false, "\x00", "", false})
+			cases = append(cases, c16case{ck, cookieKey, cookieVal, proto, "provider-fail", false, "\x00", "", false, ""})
 		}
 	}
 	// a plugin whose start-up work takes longer than any internal timer of go-plugin: the line still comes with
 	// a listener that accepts
 	for _, tl := range []string{"none", "clientcert"} {
 		for _, mx := range []string{"\x00", "true", "false"} {
-			cases = append(cases, c16case{cookieVal, cookieKey, cookieVal, "grpc", tl, false, mx, "", true})
+			cases = append(cases, c16case{cookieVal, cookieKey, cookieVal, "grpc", tl, false, mx, "", true, ""})
+		}
+	}
+	// socket directories whose names contain characters that mean something to a formatter or a shell
+	for _, dn := range []string{"50%off", "a%20b", "100%", "%s%d%v", "with space", "tab\there", "dollar$HOME", "back\\slash", "quote'\"", "ünï-cödé"} {
+		for _, proto := range []string{"netrpc", "grpc"} {
+			for _, mx := range []string{"\x00", "true"} {
+				cases = append(cases, c16case{cookie: cookieVal, cfgKey: cookieKey, cfgVal: cookieVal, proto: proto, tls: "none", mux: mx, dirName: dn})
+			}
 		}
 	}
 	out := &enumResult{Exhaustive: true, Outcomes: map[string]int{}}
@@ -103,6 +115,10 @@ func TestC16(t *testing.T) {
 			dir := filepath.Join(base, fmt.Sprintf("c16-%05d", i))
 			os.MkdirAll(dir, 0o755)
 			defer os.RemoveAll(dir)
+			if c.dirName != "" {
+				dir = filepath.Join(dir, c.dirName)
+				os.MkdirAll(dir, 0o755)
+			}
 			pc := PluginConf{CookieKey: c.cfgKey, CookieValue: c.cfgVal, Legacy: 1, LegacyProto: c.proto, GRPCServer: true, TLS: "none"}
 			if c.versioned {
 				pc.Legacy = -1
